@@ -191,8 +191,17 @@ func (m *UnboundedFairMailbox) Dequeue() (msg *ReceiveContext) {
 
 	msg = sq.mailbox.Dequeue()
 	if msg == nil {
-		// per‑sender queue was drained concurrently; mark inactive
+		// The sub-queue only looked empty: a producer that has swapped the tail but
+		// not yet linked its node hides every message enqueued behind it, and those
+		// messages may already be counted in pending. Deactivate, then re-check
+		// exactly as finalizeSender does; otherwise nobody would ever re-activate
+		// this sender (pending never passes through 1 again) and its messages stay
+		// in the mailbox forever. A counted message of this sender implies
+		// m.length > 0 (length is incremented before pending).
 		sq.active.Store(false)
+		if atomic.LoadInt64(&m.length) > 0 && atomic.LoadInt64(&sq.pending) > 0 && sq.active.CompareAndSwap(false, true) {
+			m.active.enqueue(sq)
+		}
 		return
 	}
 
